@@ -242,6 +242,15 @@ func replHistory(rec *trace.Recorder, dir string, rng *rand.Rand, steps int, tai
 	}
 	rec.Reset(trace.F{"mode": "repl", "h": h, "tailloss": tailLoss, "generated": scripted != nil})
 	run.proj()
+	if h%4 == 3 && scripted == nil {
+		// a long-lived log: the leader's positions (and its group for the follower) start inside a LATER index page of
+		// the queue (262144 entries per page), so that every reset of the follower / of the leader lands in the middle of
+		// an index page other than the first one
+		base := int64(262144*(1+rng.Intn(2)) + 3 + rng.Intn(200))
+		run.llog.SetAppendedSeq(base)
+		rec.Emit("Base", trace.F{"s": base})
+		run.proj()
+	}
 	script := []string{}
 	// every other tail-loss history keeps the follower caught up, so that the leader loses positions the
 	// follower already holds (the handshake branch "follower ahead of the leader's append index")
